@@ -20,5 +20,5 @@ func TestC06(t *testing.T) {
 		t.Fatalf("VERIF-INFRA registry: %v", err)
 	}
 	r.AddTup()
-	r.RunC06(t, st, 20000, 400000)
+	r.RunC06(t, st, 20000, 2000000)
 }
